@@ -689,6 +689,42 @@ func (e *Engine) evalSpecCall(x *SExpr, env *SpecEnv) Value {
 			return VTerm{T: mkMax(a, b), Typ: resType(vs[0], vs[1])}
 		}
 		return VTerm{T: mkMin(a, b), Typ: resType(vs[0], vs[1])}
+	case "istype":
+		// dynamic type test on an interface-typed value: istype(x, "trend.Sma")
+		if len(args) != 2 || args[1].Kind != "str" {
+			unsup("spec: istype(x, \"pkg.Type\")")
+		}
+		v := e.evalSpec(args[0], env)
+		return VTerm{T: mkEq(mkApp("dyntype", SInt, term(v)), typeTag(args[1].Val)), Typ: boolT}
+	case "as":
+		// the same value seen at its dynamic type, so that fields can be selected: as(x, "trend.Ema").Smoothing
+		if len(args) != 2 || args[1].Kind != "str" {
+			unsup("spec: as(x, \"pkg.Type\")")
+		}
+		v := e.evalSpec(args[0], env)
+		i := strings.LastIndex(args[1].Val, ".")
+		if p := e.w.Pkgs[args[1].Val[:i]]; p != nil {
+			if o := p.Types.Scope().Lookup(args[1].Val[i+1:]); o != nil {
+				return VTerm{T: term(v), Typ: types.NewPointer(o.Type())}
+			}
+		}
+		unsup("spec: as(): unknown type %s", args[1].Val)
+	case "zero":
+		// zero value of the argument's type (element types may be type parameters)
+		vs := evalArgs()
+		if vt, ok := vs[0].(VTerm); ok && vt.Typ != nil {
+			return e.zeroValue(vt.Typ)
+		}
+		unsup("spec: zero() of a non-scalar")
+	case "round":
+		// math.Round: half away from zero
+		vs := evalArgs()
+		x := toReal(term(vs[0]))
+		half := mkRat(big.NewRat(1, 2))
+		zero := mkRat(new(big.Rat))
+		up := toReal(&Term{Op: "to_int", Args: []*Term{mkArith("+", x, half)}, Sort: SInt})
+		dn := mkNeg(toReal(&Term{Op: "to_int", Args: []*Term{mkArith("+", mkNeg(x), half)}, Sort: SInt}))
+		return VTerm{T: mkIte(mkCmp(">=", x, zero), up, dn), Typ: types.Typ[types.Float64]}
 	case "abs":
 		vs := evalArgs()
 		a := term(vs[0])
